@@ -24,6 +24,8 @@ fixed("F13", "C01", "bed759e", "Circuit.to_unitary raised for circuits mixing sy
 fixed("F14", "C05", "97d3e80", "Python float parameters reloaded 1 ulp off for ~2% of doubles")
 fixed("F15", "C11", "e339167", "PauliSum(str(s)) raised for real coefficients >= 1e16: the parser split the printed text on the + of an exponent (1e+16)")
 fixed("F16", "C12", "3ce69e4", "history init(symbolic) -> bind(all symbols) -> rejected assignment: the bound vector is an (N,1) array, the saved old value was a view, so the rejected value stayed in the object")
+fixed("F17", "C17", "96e00d2", "subdistribution of a distribution with outcome values >= 10 raised RuntimeError: projected keys were joined without a separator and re-read digit by digit")
+fixed("F18", "C17", "c5a3b0d", "save/load of single-subsystem outcomes >= 10: {(12,): .5, (3,): .5} was re-read as keys of unequal length (RuntimeError); formerly recorded as open finding K5")
 open_("K1", "C18", "probe_K1", "controlled U3 (any number of controls) with (phi+lambda) mod 4pi != 0",
       "decomposed circuit == original * (phase exp(-i(phi+lambda)/2) on the all-controls-1 block), up to global phase",
       {"gate": "U3(0.3,0.5,0.9).controlled(1)(0,1)"},
@@ -38,9 +40,5 @@ open_("K3", "C05", "probe_K3", "one gate mentioning both symbol b and indexed sy
 open_("K4", "C05", "probe_K4", "parameter mentioning a symbol named Integer (with an integer literal) or Float (with a float literal)",
       "circuit_from_dict raises TypeError", {"gate": "RX(2*Integer)"},
       "symbols named Integer/Float shadow the constructors sympy's parser emits for literals; load raises TypeError")
-open_("K5", "C17", "probe_K5", "distribution with single-subsystem outcome keys (length-1 tuples) holding a value >= 10",
-      "load_measurement_outcome_distribution raises RuntimeError (keys of unequal length) or returns a different key set",
-      {"dist": {"(12,)": 0.5, "(3,)": 0.5}},
-      "save/load of single-subsystem outcomes >= 10: key '12' is re-read as (1,2); any repair changes the file format")
 json.dump(R, open(os.path.join(os.path.dirname(os.path.dirname(os.path.abspath(__file__))), "known_findings.json"), "w"), indent=1)
 print(len(R), "records")
